@@ -1303,9 +1303,22 @@ class LogixDriver(CIPDriver):
                 elements = 1
                 implicit_element = True
 
+            if not 0 <= elements <= 0xFFFF:
+                raise RequestError(f"Element count out of range: {elements}")
+
             request_tag = tag
             bit = None
             bool_elements = None
+
+            for part in tag.split("."):
+                if "[" in part or "]" in part:
+                    name, _, index = part.partition("[")
+                    if (
+                        not name
+                        or not index.endswith("]")
+                        or not all(i.strip().isdigit() for i in index[:-1].split(","))
+                    ):
+                        raise RequestError(f"Invalid array index: {part}")
 
             base, *attrs = tag.split(".")
             if base.startswith("Program:"):
